@@ -89,6 +89,7 @@ package geom
 //@   requires EnvOK(e) && EnvOK(o)
 //@   ensures result1 <==> (e.nonEmpty && o.nonEmpty)
 //@   ensures result1 ==> result0 >= 0
+//@   defines same(result0, ufn(envdist, float64, e, o))
 
 //@ func Envelope.AsBox
 //@   ensures result1 <==> e.nonEmpty
